@@ -33,14 +33,27 @@ func newDiffState(oldMast *Mast, newMast *Mast) *diffState {
 	dc.alreadyNotifiedNewLink = map[uint8]interface{}{}
 	if oldMast != nil {
 		dc.oldMast = oldMast
-		if oldMast.root != nil {
+		if !isEmptyRoot(oldMast.root) {
 			dc.oldStack = newIterItemStack(iterItem{considerLink: oldMast.root})
 		}
 	}
-	if newMast.root != nil {
+	if !isEmptyRoot(newMast.root) {
 		dc.newStack = newIterItemStack(iterItem{considerLink: newMast.root})
 	}
 	return &dc
+}
+
+// isEmptyRoot tells whether a tree's top link is absent or is the in-memory
+// placeholder node of a tree without entries, neither of which is a node of
+// any version.
+func isEmptyRoot(link interface{}) bool {
+	if link == nil {
+		return true
+	}
+	if node, ok := link.(*mastNode); ok {
+		return node.isEmpty()
+	}
+	return false
 }
 
 func (dc *diffState) resetCurrent() {
